@@ -18,7 +18,7 @@ func init() {
 	property("C10",
 		"Static conformance of command pass-through: (a) every iteration of the argument loop either appends the (constant-substituted) literal of the current token, closes the argument, or takes one inline arm, and then advances by exactly one token; the loop ends at the matching ')' with parenthesis depth counted on '(' / ')', and a non-empty last argument is flushed; (b) a command is rendered as TAB name [SPACE args joined by ', '] NEWLINE from constant formats; (c) statements of a chunk are rendered in order, one render per element; (d) the command name is the token literal, never constant-substituted. Hoisted-argument patching is covered by C06.a/b/c. Emit hands every top-level statement to its emitter and writes the result (C10.f); every non-nil top-level statement is kept (C10.e); the depth counter only counts (C10.a); token literals are source text (C19.f); positions never decide parsing (C16.d). The tree is written by its maker (C10.g): node fields are stored by the function that allocates the node (or a helper it hands the fresh node to), node lists only grow by parsed statements, a sub-tree stored into a node is what a token-consuming parser returned; order-bearing lists are never sorted, cut, overwritten in place or picked through (C08.e); every emitter function returns the read-out of its own builder and writes a computed text once (C10.f).",
 		[]string{"go/ssa lowering is faithful to the source"},
-		"C10.a", "C10.b", "C10.c", "C10.d", "C10.e", "C06.a", "C06.b", "C06.c", "C12.a", "C13.a", "C15.d", "C01.b", "C08.a", "C18.g", "C01.h", "C19.e", "C10.f", "C19.f", "C16.d", "C13.d", "C08.e", "C10.g", "C19.g", "C18.m", "C17.h", "C01.g", "C19.c", "C19.d")
+		"C10.a", "C10.b", "C10.c", "C10.d", "C10.e", "C06.a", "C06.b", "C06.c", "C12.a", "C13.a", "C15.d", "C01.b", "C08.a", "C18.g", "C01.h", "C19.e", "C10.f", "C19.f", "C16.d", "C13.d", "C08.e", "C10.g", "C19.g", "C18.m", "C17.h", "C01.g", "C19.c", "C19.d", "C01.c", "C01.d", "C14.d")
 	property("C11",
 		"Static conformance of AutoVar handling: (a) an AutoVar operand is recognised as an identifier configured in autovar_commands, parsed with the ordinary command parser, and its result var is the configured name or the argument at the configured position (bounds-checked), taken verbatim; (b) the parsed command is attached as the preamble of exactly the leaf whose operand is that result var (type VAR), and for switch it is placed immediately before the switch statement; (c) the leaf renders its preamble with the ordinary command renderer exactly once, before the comparison, iff present; each leaf owns one chunk and loops re-enter at the condition's entry chunk (C02.e, C01.e). The command is attached exactly when its result var is the operand (C11.b); the shipped command_config.json keys are the JSON names of the decoded structs (C11.d).",
 		[]string{"scheme argument of DESIGN §4 C11"},
